@@ -22,7 +22,7 @@ RULE = ('2-4 contenders (threads sharing one Cache, threads with their own Cache
         'CLOCK_MONOTONIC stamps. evaluations = schedules and process runs judged; distinct_nontrivial = distinct '
         'schedules in which a contender was preempted while holding')
 DISTINCT = ('schedules_preempted_while_holding', 'process_runs')
-REQUIRED = ('barrier_rounds_beside_a_direct_holder', 'critical_sections_that_failed', 'with_statement_sections', 'schedules_lock', 'schedules_rlock', 'schedules_semaphore', 'schedules_barrier', 'critical_sections',
+REQUIRED = ('recipe_arguments_by_position', 'barrier_rounds_beside_a_direct_holder', 'critical_sections_that_failed', 'with_statement_sections', 'schedules_lock', 'schedules_rlock', 'schedules_semaphore', 'schedules_barrier', 'critical_sections',
             'contended_acquires', 'nested_acquires', 'refused_releases', 'process_runs_done', 'fanout_schedules',
             'fork_runs_done', 'waiting_contenders_failed_by_injection', 'contenders_with_pickled_handles')
 ASSUMPTIONS = ('witness intervals lie strictly inside the claimed hold period, so an overlap is a proof and clock '
@@ -91,7 +91,11 @@ def schedule(dc, sc, res, rng, label, kind):
             return dc.Lock(c, lock_key)
         if kind == 'rlock':
             return dc.RLock(c, lock_key)
-        return dc.BoundedSemaphore(c, lock_key, value=value)
+        # (the documented parameter order is (cache, key, value, expire, tag): by keyword or by position)
+        how = rng.randrange(3)
+        res.count('recipe_arguments_by_position', 1 if how else 0)
+        return [lambda: dc.BoundedSemaphore(c, lock_key, value=value), lambda: dc.BoundedSemaphore(c, lock_key, value),
+                lambda: dc.BoundedSemaphore(c, lock_key, value, None, None)][how]()
 
     def critical(ci):
         me = sch._me()
@@ -148,7 +152,11 @@ def schedule(dc, sc, res, rng, label, kind):
                                 inner()
                         res.count('barrier_rounds_beside_a_direct_holder')
                     else:
-                        work = dc.barrier(caches[ci], factory, name=lock_key)(work)
+                        how = rng.randrange(3)
+                        res.count('recipe_arguments_by_position', 1 if how else 0)
+                        work = [lambda: dc.barrier(caches[ci], factory, name=lock_key),
+                                lambda: dc.barrier(caches[ci], factory, lock_key),
+                                lambda: dc.barrier(caches[ci], factory, lock_key, None, None)][how]()(work)
                     me.phase = 'acquire'
                     try:
                         work()
